@@ -165,6 +165,23 @@ CLAIMED["C05"] = dict(
     technique="Lean 4 proof (decoder model = independent vendor-document reader, for all payloads) + differential of the real decoders against both the model and the vendor reader",
     note=CODEC_NOTE + "Timer status (0x37 / 0xC033) is not in the vendor documents; it is covered by C03/C17 only. Known findings: AT4/AT5 ability following-length byte is not used to advance.")
 
+CLAIMED["C04"] = dict(
+    text="Theorems in Props/C04.lean, for EVERY well-formed control message of the four control kinds (AT4 0x2A group, 0x2C AC; AT5 0xC0/0x20 zone, "
+         "0xC0/0x22 AC; any record count): the bytes the encoder model produces, read by the independent vendor-document reader, give the "
+         "addressed group / zone / AC number, exactly the requested values (set-point tenths, percentage) and `keep` for every field the message "
+         "leaves unchanged (encode_reads_*, addresses_*, changes_exactly_*, value_exact_*), and the frame the send-path model writes for ANY "
+         "registry message is prefix, to-address 0x80 (0x90 for type 0x1F), from 0xB0, packet id, type, length = payload length, payload and the "
+         "Spec CRC-16/MODBUS of address..payload, accepted by the vendor frame reader (frame_bytes/fields/reads_g4/g5, wire_*: message -> frame "
+         "-> vendor frame reader -> vendor command reader). Boundary behaviour is exhibited by proved counterexamples (AT5 zone set-points "
+         "35.1..35.5 read as keep; numbers beyond the field widths wrap) - all outside the admissible arguments. Which message each public call "
+         "produces (only the requested field set, others unchanged; rounding and clamping) is proved over the API models (Props/C11At5, C11At4). "
+         "Tie and direct judgement: real AirTouch4/5 objects initialised by a scripted console; every public control call x every enum argument x "
+         "temperatures on a 0.05 degC grid from -10 to 60 x dampers -5..105 x AC/zone numbers x ability configurations; the message each accepted "
+         "call sends is framed by the real send path and read by the vendor reader; encoders and frames are also tied to the model by the C03 differential.",
+    design_ref="DESIGN.md section 7, C04 and section 12",
+    technique="Lean 4 proof (encoder model read back by an independent vendor-document reader; frame layout and CRC) + API model theorems + exhaustive-grid judgement of the real API's frames by the vendor reader",
+    note=CODEC_NOTE + "Quick-timer and AC-timer control messages are not in the vendor documents: only their addressing, length and check bytes are judged. The AirTouch 5 outer 10-byte header is undocumented (reverse-engineered upstream): judged for consistency with the inner frame only.")
+
 NOT_YET = {
 }
 
